@@ -63,6 +63,7 @@ From Coq Require Import PrimFloat.
 From Coq Require Import ZArith List Bool Reals Lra.
 From BZ Require Import Base.Ops Gen.Point Gen.Cubic Hand.Fit Proofs.C14 Gen.Fit Proofs.Bridge.
 Import ListNotations.
+From BZ Require Proofs.Transfer6.
 From BZ Require Gen.Sample Proofs.Bridge6.
 Open Scope R_scope.
 
@@ -202,6 +203,9 @@ Proof. exact @Bridge6.fitCurve_gen_F. Qed.
 Theorem C14_fitCurve_inner_gen_F :
   forall (tbl : list libm_entry) (fuel depth : nat) (points : list (pt float)) (t1 t2 : option (pt float)) (error cT : float) (ms : Z), (10 <= fuel)%nat -> (length points <= fuel)%nat -> fst (fitCurve_inner (FOpsT tbl) depth points t1 t2 error cT ms) <> RRaise OutOfFuel -> Bridge6.pyres_of (CurveFit__fitCurve (FOpsT tbl) fuel depth points t1 t2 error cT ms) = Some (fst (fitCurve_inner (FOpsT tbl) depth points t1 t2 error cT ms)).
 Proof. exact @Bridge6.fitCurve_inner_gen_F. Qed.
+Theorem C14_gen_fitCurve_sound_R :
+  forall (error cT : R) (fuel depth : nat) (data : list (pt R)) (B : Z) (a b : pt R), 0 < radicand error -> 0 < cT -> In a data -> In b data -> a <> b -> (Z.of_nat (length data) <= B)%Z -> (10 <= fuel)%nat -> (length data <= fuel)%nat -> fst (fitCurve ROps depth data error cT B) <> RRaise OutOfFuel -> exists (l : list (seg4 R)) (first : pt R) (rest : list (pt R)), CurveFit_fitCurve ROps fuel depth data error cT B = Some (Sample.Returns (Some l)) /\ data = first :: rest /\ l <> [] /\ chain_from first l (last data first) /\ (Z.of_nat (length l) <= B)%Z /\ (forall p : pt R, In p data -> exists (c : seg4 R) (u : R), In c l /\ 0 <= u <= 1 /\ Point_distanceFrom ROps (Cubic_pointAtTime ROps c u) p <= tol_of error).
+Proof. exact @Transfer6.gen_fitCurve_sound_R. Qed.
 
 Print Assumptions C14_count_le_budget.
 Print Assumptions C14_result_covers.
@@ -248,3 +252,4 @@ Print Assumptions C14_fitCurve_gen_R.
 Print Assumptions C14_fitCurve_inner_gen_R.
 Print Assumptions C14_fitCurve_gen_F.
 Print Assumptions C14_fitCurve_inner_gen_F.
+Print Assumptions C14_gen_fitCurve_sound_R.
